@@ -2,7 +2,7 @@ package main
 
 import (
 	"fmt"
-	"math"
+	"os"
 	"sort"
 
 	"github.com/golang/geo/r3"
@@ -23,10 +23,19 @@ type idxShape struct {
 	desc     interface{}
 }
 
+// panicNote collects accessor panics met while caching a shape's edges (reported by the caller).
+var panicNote []string
+
 func newIdxShape(sh s2.Shape, typ string, clean bool, desc interface{}) *idxShape {
 	s := &idxShape{shape: sh, typ: typ, dim: sh.Dimension(), clean: clean, vertices: map[s2.Point]bool{}, desc: desc}
 	for e := 0; e < sh.NumEdges(); e++ {
-		ed := sh.Edge(e)
+		e := e
+		r := callEdge(func() s2.Edge { return sh.Edge(e) })
+		if r.panicked {
+			panicNote = append(panicNote, fmt.Sprintf("%s.Edge(%d) panics with NumEdges = %d", typ, e, sh.NumEdges()))
+			break
+		}
+		ed := r.e
 		s.edges = append(s.edges, ed)
 		s.vertices[ed.V0] = true
 		s.vertices[ed.V1] = true
@@ -278,6 +287,14 @@ func genCollection(rng *vkit.Rng, kind int) *collection {
 		c.kind = "multi-face"
 		multiFaceShapes(c, rng)
 		addRandomShape(c, rng, pickCenter(rng), pickRadius(rng), 64)
+	case 5: // about 10^4 edges (thorough and search tiers)
+		c.kind = "huge"
+		center := pickCenter(rng)
+		radius := pickRadius(rng)
+		for c.numEdges() < 9000 && len(c.shapes) < 12 {
+			ctr := s2.Point{Vector: center.Add(randPoint(rng).Mul(2 * float64(radius))).Normalize()}
+			addRandomShape(c, rng, ctr, radius*s1.Angle(0.3+1.5*rng.Float()), 1000)
+		}
 	default: // no edges at all / only points / a single degenerate shape
 		c.kind = "degenerate"
 		switch rng.Intn(3) {
@@ -398,6 +415,22 @@ func checkDump(c *vkit.Collector, rng *vkit.Rng, col *collection, cells []s2.Ver
 				}
 				c.Eval("", false)
 				if edgeNearCell(s2cell, ed.V0, ed.V1, missMargin) {
+					if os.Getenv("VERIF_C06_DEBUG") != "" {
+						r := s2cell.BoundUV()
+						fmt.Fprintf(os.Stderr, "MISS cell %x face %d level %d uv [%g,%g]x[%g,%g] shape %d edge %d %v -> %v\n", uint64(cell.ID), cell.ID.Face(), cell.ID.Level(), r.X.Lo, r.X.Hi, r.Y.Lo, r.Y.Hi, sid, e, ed.V0, ed.V1)
+						for _, oc := range cells {
+							for _, ocl := range oc.Shapes {
+								if int(ocl.ShapeID) == sid {
+									for _, oe := range ocl.Edges {
+										if oe == e {
+											rr := s2.CellFromCellID(oc.ID).BoundUV()
+											fmt.Fprintf(os.Stderr, "   listed in %x face %d level %d uv [%g,%g]x[%g,%g]\n", uint64(oc.ID), oc.ID.Face(), oc.ID.Level(), rr.X.Lo, rr.X.Hi, rr.Y.Lo, rr.Y.Hi)
+										}
+									}
+								}
+							}
+						}
+					}
 					c.Violate("ShapeIndex.completeness", fmt.Sprintf("edge %d of shape %d passes within %.1e (uv) of index cell %x but the cell does not list it", e, sid, missMargin, uint64(cell.ID)),
 						col.replay(map[string]interface{}{"cell": fmt.Sprintf("%x", uint64(cell.ID)), "shapeID": sid, "edge": e, "v0": p3(ed.V0), "v1": p3(ed.V1)}))
 				}
@@ -694,7 +727,7 @@ func checkRegion(c *vkit.Collector, rng *vkit.Rng, name string, reg cellRegion, 
 }
 
 func checkRegions(c *vkit.Collector, rng *vkit.Rng, budget int) {
-	for it := 0; it < 6*budget; it++ {
+	for it := 0; it < 16*budget; it++ {
 		n := []int{33, 40, 64, 100, 300, 1000}[rng.Intn(6)]
 		center, radius := pickCenter(rng), pickRadius(rng)
 		desc := map[string]interface{}{"center": p3(center), "radius": float64(radius), "n": n}
@@ -930,12 +963,49 @@ func correspondIndex(c *vkit.Collector, rng *vkit.Rng, col *collection, cells []
 
 func runIndex(c *vkit.Collector, rng *vkit.Rng, budget int) {
 	kinds := []int{0, 1, 2, 0, 3, 2, 1, 4, 0, 2, 1, 3, 0, 2, 1, 0}
-	nCollections := 32 * budget
+	nCollections := 80 * budget
 	tBudget = 6 * budget
 	maxEdges, maxCells := 0, 0
 	for it := 0; it < nCollections; it++ {
 		kind := kinds[it%len(kinds)]
-		col := genCollection(rng, kind)
+		if budget > 1 && it%40 == 7 {
+			kind = 5
+		}
+		runOneCollection(c, rng, it, kind, &maxEdges, &maxCells)
+	}
+	checkRegionsSafely(c, rng, budget)
+	c.Extra["index_max_edges"] = maxEdges
+	c.Extra["index_max_cells"] = maxCells
+}
+
+// safely runs f; a panic of the implementation is a violation of the property (no query may
+// crash on a well-formed collection), reported with the collection as replay.
+func safely(c *vkit.Collector, what string, replay func() interface{}, f func()) {
+	defer func() {
+		if r := recover(); r != nil {
+			c.Violate("panic:"+what, fmt.Sprintf("the implementation panicked: %v", r), replay())
+		}
+	}()
+	f()
+}
+
+func checkRegionsSafely(c *vkit.Collector, rng *vkit.Rng, budget int) {
+	safely(c, "Loop/Polygon cell queries", func() interface{} { return "regular loops / polygons (see generator)" }, func() { checkRegions(c, rng, budget) })
+}
+
+func runOneCollection(c *vkit.Collector, rng *vkit.Rng, it, kind int, maxEdgesP, maxCellsP *int) {
+	maxEdges, maxCells := *maxEdgesP, *maxCellsP
+	defer func() { *maxEdgesP, *maxCellsP = maxEdges, maxCells }()
+	var col *collection
+	safely(c, "building the collection", func() interface{} { return map[string]interface{}{"kind": kind, "iteration": it} }, func() { col = genCollection(rng, kind) })
+	if col == nil {
+		return
+	}
+	for _, n := range panicNote {
+		c.Violate("Shape.Edge", n, col.replay(map[string]interface{}{}))
+	}
+	panicNote = nil
+	safely(c, "index build and queries", func() interface{} { return col.replay(map[string]interface{}{}) }, func() {
 		cells := col.index.VerifCells()
 		c.Class("index:" + col.kind)
 		c.Class(fmt.Sprintf("index: %d shapes", len(col.shapes)))
@@ -957,9 +1027,5 @@ func runIndex(c *vkit.Collector, rng *vkit.Rng, budget int) {
 		checkContainsQueries(c, rng, col, cells, nq)
 		checkCrossingQueries(c, rng, col, cells, nq/2+1)
 		correspondIndex(c, rng, col, cells, 6)
-	}
-	checkRegions(c, rng, budget)
-	c.Extra["index_max_edges"] = maxEdges
-	c.Extra["index_max_cells"] = maxCells
-	_ = math.Pi
+	})
 }
